@@ -168,6 +168,10 @@ Definition sim_right_operand_ex (t form : string) : option (vt * bool * bool) :=
     if String.eqb t "header" then None else Some (vt_of_name t, false, true)
   else if String.eqb form "ifexp" then
     match sim_base_operand t "local" with Some (a, _) => Some (a, false, true) | None => None end
+  else if mem_str form ["dinit"; "dexpr"; "copy"; "compound"; "default"; "inif"] then
+    (* LocalVariables.Set / ProcessDeclareStatement store the value through assign.Assign, which copies the
+       payload and never the Literal flag: a variable is not a literal, however it got its value *)
+    if String.eqb t "header" then None else Some (vt_of_name t, false, true)
   else None.
 
 Definition sim_right_operand (t form : string) : option (vt * bool) :=
@@ -220,3 +224,11 @@ Definition interp_coerce_model (ctx e t form : string) : bool :=
     bound &&
     (if String.eqb ctx "arg" then sim_arg_ok (vt_of_name e) a lit else convert_ok (vt_of_name e) a lit)
   end.
+
+(* the same with a provenance of the left operand.  The provenance of a variable does not matter, with one
+   value-dependent exception in the code: operator.Equal answers false for a NOT-SET left IP (declared, never
+   assigned) before it looks at the right operand, so no type error can arise there *)
+Definition interp_op_model_left (op lty lprov rty form : string) : bool :=
+  if String.eqb lty "IP" && String.eqb lprov "default" && mem_str op ["=="; "!="] then
+    match sim_right_operand_ex rty form with Some (_, _, bound) => bound | None => false end
+  else interp_op_model op lty rty form.
